@@ -42,6 +42,8 @@ var targets = []target{
 	{"checkLeaderUpdate", "replication.checkLeaderUpdate", []string{"onLeaderUpdate", "notifyLdr"}},
 	{"timerStop", "safeTimer.stop", nil},
 	{"timerReset", "safeTimer.reset", []string{"stop"}},
+	// "go:" = the body of the (first) goroutine started by that function with `go func(…){…}(…)`
+	{"snapGoroutine", "go:Raft.onTakeSnapshot", nil},
 }
 
 type comm struct {
@@ -800,7 +802,7 @@ func main() {
 	sb.WriteString("import RaftGen.Chan.Model\n\nnamespace Raft.Gen\nopen Raft.Chan\n\n")
 
 	// fixed channel numbering for the channels the targets use
-	for _, nm := range []string{"leaderUpdateCh", "stopCh", "replUpdateCh", "timer", "fsmRestoredCh", "snapTakenCh"} {
+	for _, nm := range []string{"leaderUpdateCh", "stopCh", "replUpdateCh", "timer", "fsmRestoredCh", "snapTakenCh", "close"} {
 		chanID(nm)
 	}
 
@@ -812,17 +814,33 @@ func main() {
 	}
 	var procs []procOut
 	for _, t := range targets {
-		fd := p.funcs[t.Func]
+		fd := p.funcs[strings.TrimPrefix(t.Func, "go:")]
 		if fd == nil {
 			fmt.Fprintf(os.Stderr, "astfacts: target %s not found\n", t.Func)
 			os.Exit(2)
+		}
+		body := fd.Body.List
+		if strings.HasPrefix(t.Func, "go:") {
+			body = nil
+			ast.Inspect(fd.Body, func(n ast.Node) bool {
+				if g, ok := n.(*ast.GoStmt); ok && body == nil {
+					if fl, ok := g.Call.Fun.(*ast.FuncLit); ok {
+						body = fl.Body.List
+					}
+				}
+				return body == nil
+			})
+			if body == nil {
+				fmt.Fprintf(os.Stderr, "astfacts: %s starts no goroutine with a function literal\n", t.Func)
+				os.Exit(2)
+			}
 		}
 		b := &builder{p: p, eff: eff, inline: map[string]bool{}, opaque: map[string]bool{}, tname: t.Name}
 		for _, i := range t.Inline {
 			b.inline[i] = true
 		}
 		halt := b.add(node{kind: "halt"})
-		entry := b.block(fd.Body.List, halt, ctx{brk: -1, cont: -1, ret: halt, labels: map[string][2]int{}})
+		entry := b.block(body, halt, ctx{brk: -1, cont: -1, ret: halt, labels: map[string][2]int{}})
 		var op []string
 		for k := range b.opaque {
 			op = append(op, k)
